@@ -52,6 +52,9 @@ func (Secp256k1) Order() *saferith.Modulus {
 }
 
 func (Secp256k1) LiftX(data []byte) (*Secp256k1Point, error) {
+	if len(data) != 32 {
+		return nil, fmt.Errorf("secp256k1Point.LiftX: invalid length for an x coordinate: %d", len(data))
+	}
 	out := new(Secp256k1Point)
 	out.value.Z.SetInt(1)
 	if out.value.X.SetByteSlice(data) {
